@@ -21,7 +21,7 @@ use crate::proto::{Ctx, attrs, short_site, take_panic};
 pub fn meta() -> Meta {
     Meta {
         level: "model_checking",
-        rule: "(a) every call HISTORY (not: state) of the real oxidd_core::util::VarNameMap from the empty map up to length 5 (quick) / 6 (thorough) over the alphabet add_unnamed(1|2), add_named(l) for all 20 lists l of length 1-2 over {\"\",a,b,c}, set_var_name(v,s) for every existing v and s in {\"\",a,b,c}, get_or_add(s) for the 4 names, reserve(8) (= all public mutators of the type). Each history is executed from scratch on a fresh real object (the type's Clone is not used by the search; it is checked separately: shard a:clone), the Vec<String> model is stepped in lock-step; in the final state of every history the return value of the last call and all invariants are checked, cheapest first (named_count and len before anything that dereferences an index key, then var_name for every variable, name_to_var for a,b,c,\"\" and a never-used name, finally into_names_iter). No pruning on the model state: the concrete state (hash-table layout and capacity, string allocations, possible stale index entries) is NOT a function of the names vector, so merging histories that reach the same names vector would be unsound; a history is only not extended after its final state violated an invariant (the object may then hold dangling keys, it is leaked, never dropped). Iterative deepening, so the shortest failing history of a shard is reported first. A supplementary pass (shard a:graph) explores the de-duplicated abstract state graph breadth-first to depth 8 (quick) / 10 (thorough) and executes every transition out of every distinct names vector, from that vector's shortest history, on the real object; it supplies the 'states' count and is not part of the exhaustiveness claim; out of every distinct names vector it also issues set_var_name(len, s) for the four names (the first variable number that does not exist: documented panic, or the duplicate error) under catch_unwind and requires the map to read as before and to keep working after one more add_unnamed(1). (b) every sequence up to length 3 (quick) / 4 (thorough; tdd: 3) over add_vars(1|2), add_named_vars(l) (20 lists), add_named_vars_from_map(m) (the 17 lists that form a valid map), set_var_name(v,s) through the Manager API of real index-based BDD, BCDD, ZBDD, MTBDD<I64> and TDD managers; one fresh manager per history with the fixed interleaving: after every call a new handle over all variables existing so far is built (reduce/then_insert), one apply operation (and/add/union) on the two newest handles, its result is dropped and gc() runs. Checked after the last call: return value, num_named_vars, num_levels = num_vars = expected, var_to_level/level_to_var inverse permutations and level = number for new variables, var_name/name_to_var as in (a); for BDD/BCDD/MTBDD/TDD the table of every pre-existing handle (own interpreter, over the current number of variables) equals its old table and is independent of the new variables, a freshly built diagram reads back, the apply result is the pointwise model result, and everything again after gc. Histories of length 4 are run for one representative per permutation of the names a,b,c (first-use order a,b,c): names are opaque to library and oracle; all renamings are run up to length 3 and, at VarNameMap level, up to length 6 in (a). VERIF_C16_FULL=1 runs every renaming at length 4 too. A history is non-trivial when it contains a rejected call, a rename, a clearing, a lookup hit or (b) an addition while handles are live.",
+        rule: "(a) every call HISTORY (not: state) of the real oxidd_core::util::VarNameMap from the empty map up to length 5 (quick) / 6 (thorough) over the alphabet add_unnamed(1|2), add_named(l) for all 20 lists l of length 1-2 over {\"\",a,b,c}, set_var_name(v,s) for every existing v and s in {\"\",a,b,c}, get_or_add(s) for the 4 names, reserve(8) (= all public mutators of the type). Each history is executed from scratch on a fresh real object (the type's Clone is not used by the search; it is checked separately: shard a:clone), the Vec<String> model is stepped in lock-step; in the final state of every history the return value of the last call and all invariants are checked, cheapest first (named_count and len before anything that dereferences an index key, then var_name for every variable, name_to_var for a,b,c,\"\" and a never-used name, finally into_names_iter). No pruning on the model state: the concrete state (hash-table layout and capacity, string allocations, possible stale index entries) is NOT a function of the names vector, so merging histories that reach the same names vector would be unsound; a history is only not extended after its final state violated an invariant (the object may then hold dangling keys, it is leaked, never dropped). Iterative deepening, so the shortest failing history of a shard is reported first. A supplementary pass (shard a:graph) explores the de-duplicated abstract state graph breadth-first to depth 8 (quick) / 10 (thorough) and executes every transition out of every distinct names vector, from that vector's shortest history, on the real object; it supplies the 'states' count and is not part of the exhaustiveness claim; out of every distinct names vector it also issues set_var_name(len, s) for the four names (the first variable number that does not exist: documented panic, or the duplicate error) under catch_unwind and requires the map to read as before and to keep working after one more add_unnamed(1). (b) every sequence up to length 3 (quick) / 4 (thorough; tdd: 3) over add_vars(1|2), add_named_vars(l) (20 lists), add_named_vars_from_map(m) (the 17 lists that form a valid map), set_var_name(v,s) through the Manager API of real index-based BDD, BCDD, ZBDD, MTBDD<I64> and TDD managers; one fresh manager per history with the fixed interleaving: after every call a new handle over all variables existing so far is built (reduce/then_insert), one apply operation (and/add/union; ZBDD also the complement and the family of all sets) on the two newest handles, its result is dropped and gc() runs. Checked after the last call: return value, num_named_vars, num_levels = num_vars = expected, var_to_level/level_to_var inverse permutations and level = number for new variables, var_name/name_to_var as in (a); for BDD/BCDD/MTBDD/TDD the table of every pre-existing handle (own interpreter, over the current number of variables) equals its old table and is independent of the new variables, a freshly built diagram reads back, the apply result is the pointwise model result, and everything again after gc. Histories of length 4 are run for one representative per permutation of the names a,b,c (first-use order a,b,c): names are opaque to library and oracle; all renamings are run up to length 3 and, at VarNameMap level, up to length 6 in (a). VERIF_C16_FULL=1 runs every renaming at length 4 too. A history is non-trivial when it contains a rejected call, a rename, a clearing, a lookup hit or (b) an addition while handles are live.",
         assumptions: vec![
             "index-based backend only; the pointer-based manager shares VarNameMap and the same add_* code shape and is exercised by C20".into(),
             "ZBDD handles are excluded from the function-preservation clause by the property text; for ZBDD only bookkeeping is checked (handles are still created, united and collected)".into(),
@@ -1321,6 +1321,10 @@ impl MKind for KZbdd {
         Ok(vec![])
     }
     fn binop(f: &ZBDDFunction, g: &ZBDDFunction) -> ZBDDFunction {
+        // the Boolean view needs the manager's family of all sets over the current variables
+        let nf = f.not().expect("harness: out of memory");
+        let all = f.with_manager_shared(|m, _| ZBDDFunction::t(m));
+        assert!(nf.union(f).expect("harness: out of memory") == all, "zbdd: f | !f is not the family of all sets");
         f.union(g).expect("harness: out of memory")
     }
     fn model_binop(a: i64, _b: i64) -> i64 {
